@@ -133,6 +133,22 @@ def fn_return_lb(body, depth=0, ok_payload=False, cparam=None):
         for d in pr.q.whole_defs(0):
             ok_def(d)
         r = min(vals) if vals else 0
+        if r == 0 and body.crate == "stun_rs" and len(body.blocks) <= 40 and depth <= 1:
+            # the MIR-level bound is lost when the size comes back from a helper (`Ok(bytes.len())` with
+            # bytes = x.to_be_bytes()): evaluate the Ok values of the small function by abstract interpretation instead
+            try:
+                from . import client as C_, linproof as LP_
+                paths, info = C_.explore_fn(body.prog, body.path, "x", [r"\{closure"], memo_shared=True, max_paths=200)
+                cs = []
+                for pa in paths:
+                    rr = C_.expr_of(pa, pa.ret)
+                    if isinstance(rr, tuple) and rr and rr[0] == "Result::Ok" and len(rr) > 1:
+                        d_ = LP_.Lin().lin(rr[1])
+                        cs.append(int(d_.get(1, 0)) if all(k_ == 1 for k_ in d_) else 0)
+                if cs and not info["bounded"]:
+                    r = max(r, min(cs))
+            except Exception:
+                pass
         _RET_LB[ck] = r
         return r
 
